@@ -554,7 +554,10 @@ func genRangeExpr(r *rand.Rand, simple bool) *MExpr {
 			e.Unwrap = &MUnwrap{Label: "dur", Conv: pick(r, []string{"duration", "duration_seconds"})}
 		}
 		if r.Intn(4) == 0 {
-			e.Unwrap.Filters = []LMatcher{{Label: pick(r, mLabels), Op: pick(r, []string{"eq", "ne"}), Value: pick(r, mLabelVal)}}
+			// one post-filter, or several (built as a pipeline of matchers: a different code path)
+			for i, n := 0, 1+r.Intn(3)*r.Intn(2); i < n; i++ {
+				e.Unwrap.Filters = append(e.Unwrap.Filters, LMatcher{Label: pick(r, mLabels), Op: pick(r, []string{"eq", "ne"}), Value: pick(r, mLabelVal)})
+			}
 		}
 		if e.Op == "quantile_over_time" {
 			e.Param = pick(r, []string{"0.5", "0", "1", "0.25", "0.9"})
